@@ -31,7 +31,8 @@ RULE = ('SourceCatalog: C07 scene generator (1-8 sources; touching/nested/single
         'the child (both history kinds present), or an independence sequence of >= 3 steps ran; distinct by digest '
         'of the inputs + index expression + evaluated subset')
 CLASSES = ['sc_plain', 'sc_wcs', 'sc_detcat', 'sc_masked', 'sc_edge', 'sc_units', 'sc_kronmin', 'sc_localbkg',
-           'sc_single', 'sc_naninf', 'sc_independence', 'sc_independence2',
+           'sc_single', 'sc_naninf', 'sc_oversub', 'sc_undetected', 'sc_magnitude',
+           'sc_independence', 'sc_independence2',
            'ap_plain', 'ap_wcs_sky', 'ap_sigclip', 'ap_offimage', 'ap_units_localbkg', 'ap_masked']
 MUST_REACH = ['photutils.segmentation.catalog:SourceCatalog.__getitem__',
               'photutils.segmentation.catalog:SourceCatalog.get_label',
@@ -57,12 +58,12 @@ ASSUMPTIONS = ['the oracle value is the property read on a second, never-indexed
                'labels / ids are documented as always 1-D: compared after atleast_1d',
                'list, tuple and object-ndarray containers are considered the same kind of sequence; element values, '
                'shapes, dtype kinds, units, masks, aperture classes/parameters and SkyCoord lon/lat must be identical',
-               'empty selections (cat[3:3], all-False masks) are not generated',
+               'empty selections (cat[0:0], all-False masks, []) are only probed and counted (documentation silent), never judged',
                'commutation of the photometry *methods* themselves is not demanded (only properties, per the statement); '
                'their named results are covered as extra properties']
 
 INDEX_FORMS = ['int', 'negint', 'npint', 'slice', 'slice_step', 'slice_neg', 'list', 'list_dup', 'array', 'array_neg',
-               'boolarray', 'boollist', 'get_one', 'get_many', 'get_many_array']
+               'boolarray', 'boollist', 'get_one', 'get_one_np', 'get_many', 'get_many_array', 'get_many_tuple']
 
 
 def plan(tier):
@@ -126,6 +127,11 @@ def make_index(rng, n, form, ids):
         return (m if form == 'boolarray' else [bool(x) for x in m]), 'getitem'
     if form == 'get_one':
         return int(ids[int(rng.integers(0, n))]), 'get_one'
+    if form == 'get_one_np':
+        return np.int64(ids[int(rng.integers(0, n))]), 'get_one'
+    if form == 'get_many_tuple':
+        k = int(rng.integers(1, n + 1))
+        return tuple(int(x) for x in rng.choice(ids, size=k, replace=False)), 'get_many'
     if form == 'get_many':
         k = int(rng.integers(1, n + 1))
         return [int(x) for x in rng.choice(ids, size=k, replace=rng.random() < 0.3)], 'get_many'
@@ -224,6 +230,19 @@ def compare_parent_after(case, parent_a, parent_b, props, mech0, rng, k=12):
             case.check(ok, 'indexed_parent_equals_unindexed_parent', mech, why=why)
 
 
+def probe_empty_selection(case, cat, n, names, rng):
+    """Degenerate axis: an empty selection.  The documentation is silent about empty catalogues, so the
+    outcome is only counted (evidence), never judged."""
+    idx = [slice(0, 0), np.zeros(n, dtype=bool), []][int(rng.integers(0, 3))]
+    try:
+        child = cat[idx]
+        for nm in names:
+            getattr(child, nm)
+        case.note('empty_selection_readable')
+    except Exception as exc:  # noqa: BLE001
+        case.note('empty_selection_raised_' + type(exc).__name__)
+
+
 def compare_tables(case, child, parent_b, pos, mech0, columns=None):
     mech = dict(mech0, prop='to_table', cached=None)
     try:
@@ -257,8 +276,9 @@ SC_CLASS_MAP = {'sc_plain': ['touching', 'nested', 'single_pixel', 'convolved', 
                 'sc_wcs': ['wcs'], 'sc_detcat': ['detcat'], 'sc_masked': ['fully_masked', 'masked_cut'],
                 'sc_edge': ['edge'], 'sc_units': ['units'], 'sc_kronmin': ['single_pixel', 'touching', 'errbkg'],
                 'sc_localbkg': ['localbkg'], 'sc_single': ['errbkg', 'edge', 'fully_masked', 'wcs'],
-                'sc_naninf': ['naninf'], 'sc_independence': ['errbkg', 'units', 'fully_masked', 'wcs', 'touching'],
-                'sc_independence2': ['errbkg', 'single_pixel', 'edge', 'detcat']}
+                'sc_naninf': ['naninf'], 'sc_oversub': ['oversub'], 'sc_undetected': ['undetected'],
+                'sc_magnitude': ['magnitude'], 'sc_independence': ['errbkg', 'units', 'fully_masked', 'wcs', 'touching', 'oversub'],
+                'sc_independence2': ['errbkg', 'single_pixel', 'edge', 'detcat', 'undetected', 'magnitude']}
 
 
 def sc_scene(case):
@@ -277,7 +297,7 @@ def sc_scene(case):
     else:
         sc.kron_params = [(2.5, 1.4, 0.0), (2.5, 1.4), (2.0, 1.0, 0.0), (2.5, 1.4, 1.0)][int(rng.integers(0, 4))]
     det_sc = None
-    if cls == 'sc_detcat' or sub == 'detcat' or rng.random() < 0.08:
+    if cls == 'sc_detcat' or sub == 'detcat' or rng.random() < 0.08 or (sub == 'undetected' and sc.conv is None):
         det_sc = c07mod.build_detection_scene(rng, sc)
         det_sc.apermask_method = ['correct', 'mask', 'none'][int(rng.integers(0, 3))]
         det_sc.kron_params = sc.kron_params
@@ -291,7 +311,12 @@ def sc_extras(rng, cat, sc, n, tag):
     import astropy.units as u
     out = []
     kinds = ['float', 'int', 'quantity', 'list', 'twod', 'sky', 'ragged', 'circ', 'kron', 'fluxfrac']
+    if sc.info.get('data_mode') in ('oversub', 'undetected', 'negative'):
+        kinds += ['fluxfrac', 'fluxfrac', 'fluxfrac', 'kron']      # per-row fallbacks (no solution, zero radius)
     k = int(rng.integers(0, 4))
+    if tag == 'post':
+        kinds = ['circ', 'kron', 'fluxfrac', 'fluxfrac']
+        k = int(rng.integers(1, 3))
     for j in range(k):
         kind = kinds[int(rng.integers(0, len(kinds)))]
         nm = f'{tag}{j}'
@@ -313,7 +338,8 @@ def sc_extras(rng, cat, sc, n, tag):
         else:
             v = None
         if kind == 'circ':
-            r = float(rng.uniform(1.0, 6.0))
+            r = [float(rng.uniform(1.0, 6.0)), int(rng.integers(1, 6)), np.float64(rng.uniform(1.0, 6.0)),
+                 np.float32(2.5)][int(rng.integers(0, 4))]           # call forms of a scalar argument
             out.append((nm, 'circ', lambda c, nm=nm, r=r: c.circular_photometry(r, name=nm), [nm + '_flux', nm + '_fluxerr']))
         elif kind == 'kron':
             # kron_photometry(kron_params) reads the minimum circular radius from the *catalogue's own*
@@ -326,7 +352,7 @@ def sc_extras(rng, cat, sc, n, tag):
             kp = kps[int(rng.integers(0, len(kps)))]
             out.append((nm, 'kron', lambda c, nm=nm, kp=kp: c.kron_photometry(kp, name=nm), [nm + '_flux', nm + '_fluxerr']))
         elif kind == 'fluxfrac':
-            f = float(rng.choice([0.3, 0.5, 0.9, 1.0]))
+            f = [float(rng.choice([0.3, 0.5, 0.9, 1.0])), np.float64(0.9), 1, np.float32(0.5)][int(rng.integers(0, 4))]
             out.append((nm, 'fluxfrac', lambda c, nm=nm, f=f: c.fluxfrac_radius(f, name=nm), [nm]))
         else:
             out.append((nm, kind, lambda c, nm=nm, v=v: c.add_extra_property(nm, _cp(v)), [nm]))
@@ -423,17 +449,67 @@ def run_sc_commute(case):
             case.check(True, 'scalar_catalog_not_indexable', mech0)
     case.check(list(child.extra_properties) == extra_names, 'child_extra_properties_registry', mech0,
                obs=list(child.extra_properties), exp=extra_names)
+    pre_names = props + list(extra_names)
+    # extras created by the photometry methods AFTER the indexing: on the child and on the never-indexed B
+    post = sc_extras(rng, A, sc, n, 'post') if rng.random() < 0.6 else []
+    for nm, kind, fn, names in post:
+        okp = True
+        for c, whoc in ((child, 'child'), (B, 'parent')):
+            try:
+                fn(c)
+            except Exception as exc:  # noqa: BLE001
+                loc = core.exc_location(exc)
+                if loc is None:
+                    raise
+                case.check(False, whoc + '_property_raised',
+                           dict(mech0, prop=kind + '(name=)', cached=False, exc=type(exc).__name__, at=loc), msg=str(exc)[:200])
+                okp = False
+                break
+        if not okp:
+            break
+        extra_names += names
+        case.note('extras_created_after_indexing', len(names))
+    for ax in sc.axes:
+        case.note('axis_' + ax)
+    if not sc.axes:
+        case.note('axis_plain_scene')
+    _count_fallback_rows(case, B)
     allnames = props + extra_names
     nfirst = compare_child(case, child, B, pos, allnames, mech0, cached, rng, 'sc')
     ncached = len([p for p in allnames if p in cached])
-    compare_parent_after(case, A, B, allnames, mech0, rng)
+    compare_parent_after(case, A, B, pre_names, mech0, rng)
     if rng.random() < 0.35:
         cols = None if rng.random() < 0.5 else list(A.default_columns) + extra_names_scalar(B, extra_names)
         compare_tables(case, child, B, pos, mech0, columns=cols)
+    if rng.random() < 0.05:
+        probe_empty_selection(case, A, n, ['labels', 'nlabels', 'xcentroid', 'segment_flux', 'bbox'], rng)
     case.nontrivial = ncached >= 1 and nfirst >= 1
     case.note('sc_children_scalar' if scalar else 'sc_children_nonscalar')
     case.note('properties_compared_cached', ncached)
     case.note('properties_compared_first_evaluated_on_child', nfirst)
+
+
+def _count_fallback_rows(case, cat):
+    """Evidence only: how often the per-row fallback branches occur at rows other than the first."""
+    def vals(v):
+        return np.atleast_1d(np.asarray(getattr(v, 'value', v), dtype=float))
+    try:
+        r50 = vals(cat.fluxfrac_radius(0.5))
+        kr = vals(cat.kron_radius)
+        kf = vals(cat.kron_flux)
+        sf = vals(cat.segment_flux)
+    except Exception:  # noqa: BLE001
+        return
+    if len(r50) > 1:
+        if np.isnan(r50[1:]).any() and np.isfinite(r50).any():
+            case.note('catalogues_with_nan_fluxfrac_radius_at_nonfirst_row')
+            first_fin = int(np.argmax(np.isfinite(r50)))
+            if np.isnan(r50[first_fin + 1:]).any():
+                case.note('catalogues_with_nan_fluxfrac_radius_after_a_solved_row')
+        if (kr[1:] == 0).any():
+            case.note('catalogues_with_zero_kron_radius_at_nonfirst_row')
+        if (kf[1:] < 0).any() or (sf[1:] < 0).any():
+            case.note('catalogues_with_negative_flux_at_nonfirst_row')
 
 
 def extra_names_scalar(cat, names):
@@ -558,6 +634,8 @@ def run_sc_independence(case):
     def fresh():
         return gen.make_catalog(sc, gen.make_catalog(det_sc) if det_sc is not None else None)
     P = fresh()
+    for ax in sc.axes:
+        case.note('axis_' + ax)
     props = list(P.properties)
     cheap = ['xcentroid', 'segment_flux', 'area', 'bbox_xmin', 'semimajor_sigma', 'min_value', 'label']
 
@@ -749,7 +827,14 @@ def ap_scene(case):
                                     RectangularAnnulus, RectangularAperture, SkyCircularAperture,
                                     SkyEllipticalAperture)
     rng, cls = case.rng, case.cls
+    axes = []
     ny, nx = int(rng.integers(20, 41)), int(rng.integers(20, 41))
+    r_ = rng.random()
+    if r_ < 0.15:
+        ny, nx = int(rng.integers(13, 17)), int(rng.integers(45, 71))
+        if rng.random() < 0.5:
+            ny, nx = nx, ny
+        axes.append('shape_elongated')
     yy, xx = np.indices((ny, nx))
     data = rng.normal(3.0, 2.0, (ny, nx))
     for _ in range(int(rng.integers(1, 5))):
@@ -784,17 +869,58 @@ def ap_scene(case):
     wcs = None
     if cls == 'ap_units_localbkg' or rng.random() < 0.15:
         unit = [u.Jy, u.adu][int(rng.integers(0, 2))]
+    wide = False
     if cls == 'ap_wcs_sky' or rng.random() < 0.2:
-        wcs = gen.simple_wcs(rng, (ny, nx))
+        wide = rng.random() < 0.5
+        wcs = gen.simple_wcs(rng, (ny, nx), wide=wide)
+        if wide:
+            axes.append('wcs_wide_field')
     sky = cls == 'ap_wcs_sky' and rng.random() < 0.6
+    pixscale = 1.0
+    if wcs is not None:
+        from astropy.wcs.utils import proj_plane_pixel_scales
+        pixscale = float(np.mean(proj_plane_pixel_scales(wcs))) * 3600.0      # arcsec / pixel
+    angform = int(rng.integers(0, 3))               # sky radii as arcsec / arcmin / deg quantities
+    # generic axes: magnitude of every value-like input, memory layout, call forms
+    mag = 1.0
+    if rng.random() < 0.35:
+        mag = c07mod.draw_magnitude(rng, tiny=rng.random() < 0.3)
+        with np.errstate(all='ignore'):
+            data = data * mag
+            error = None if error is None else error * mag
+        axes.append('magnitude_nonunit')
+        if mag <= 1e-9:
+            axes.append('magnitude_below_1e-9')
+    layout = {}
+    if rng.random() < 0.35:
+        for name in ('data', 'error', 'mask'):
+            if rng.random() < 0.6:
+                layout[name] = ['F', 'strided', 'bigendian'][int(rng.integers(0, 2 if name == 'mask' else 3))]
+                axes.append('layout_' + layout[name])
+    posform = int(rng.integers(0, 3))               # positions as ndarray / list of tuples / list of lists
+    if rng.random() < 0.04:
+        data = np.full((ny, nx), 2.5 * mag)          # degenerate: constant image
+        axes.append('degenerate_constant_image')
+    if mask is not None and rng.random() < 0.04:
+        mask[...] = True
+        axes.append('degenerate_everything_masked')
+
+    def ang(v):
+        q = v * pixscale * u.arcsec
+        return [q, q.to(u.arcmin), q.to(u.deg)][angform]
 
     def make_ap():
         p = pos.copy()
         if sky:
             sp = wcs.pixel_to_world(p[:, 0], p[:, 1])
             if shape % 2 == 0:
-                return SkyCircularAperture(sp, r=a * 0.5 * u.arcsec)
-            return SkyEllipticalAperture(sp, a=max(a, b) * 0.5 * u.arcsec, b=min(a, b) * 0.4 * u.arcsec, theta=th * u.rad)
+                return SkyCircularAperture(sp, r=ang(a))
+            return SkyEllipticalAperture(sp, a=ang(max(a, b)), b=ang(min(a, b)),
+                                         theta=[th * u.rad, np.degrees(th) * u.deg][angform % 2])
+        if posform == 1:
+            p = [tuple(map(float, t)) for t in p]
+        elif posform == 2:
+            p = [list(map(float, t)) for t in p]
         if shape == 0:
             return CircularAperture(p, a)
         if shape == 1:
@@ -816,22 +942,26 @@ def ap_scene(case):
     local_bkg = None
     if cls == 'ap_units_localbkg' or rng.random() < 0.2:
         local_bkg = float(rng.normal(3, 1)) if rng.random() < 0.4 else rng.normal(3, 1, n)
+        local_bkg = local_bkg * mag
+        if np.ndim(local_bkg) == 1 and rng.random() < 0.3:
+            local_bkg = [float(x) for x in local_bkg]          # call form: list instead of ndarray
 
     def build():
-        d = data.copy()
-        e = None if error is None else error.copy()
+        d = gen.relayout(data, layout.get('data'))
+        e = gen.relayout(error, layout.get('error'))
         lb = _cp(local_bkg)
         if unit is not None:
-            d = d * unit
-            e = None if e is None else e * unit
+            d = d << unit
+            e = None if e is None else e << unit
             lb = None if lb is None else lb * unit
         from photutils.aperture import ApertureStats
-        return ApertureStats(d, make_ap(), error=e, mask=None if mask is None else mask.copy(), wcs=wcs,
+        return ApertureStats(d, make_ap(), error=e, mask=gen.relayout(mask, layout.get('mask')), wcs=wcs,
                              sigma_clip=None if sigclip is None else SigmaClip(sigma=sigclip[0], maxiters=sigclip[1]),
                              sum_method=sum_method, subpixels=subpixels, local_bkg=lb)
     desc = dict(shape=[ny, nx], n=n, aperture=type(make_ap()).__name__, error=error is not None, mask=mask is not None,
                 unit=None if unit is None else str(unit), wcs=wcs is not None, sigclip=sigclip, sum_method=sum_method,
-                local_bkg=None if local_bkg is None else ('scalar' if np.ndim(local_bkg) == 0 else 'array'))
+                local_bkg=None if local_bkg is None else ('scalar' if np.ndim(local_bkg) == 0 else 'array'),
+                magnitude=mag, layout=layout, sky=bool(sky), wide=bool(wide), axes=axes)
     dig = core.arr_digest(data, error, mask, pos, np.asarray(0.0 if local_bkg is None else local_bkg))
     return build, n, desc, dig
 
@@ -842,7 +972,13 @@ def run_ap(case):
     A, B = build(), build()
     props = [p for p in A.properties if p not in ('isscalar', 'n_apertures')] + ['id', 'ids']
     case.check(len(props) >= 45, 'properties_list', {'cat': 'ApertureStats'}, n=len(props))
-    frac = float(rng.choice([0.0, 0.1, 0.3, 0.6, 1.0]))
+    for ax in desc['axes']:
+        case.note('axis_ap_' + ax)
+    if not desc['axes']:
+        case.note('axis_ap_plain_scene')
+    frac = float(rng.choice([0.0, 0.0, 0.1, 0.3, 0.6, 1.0]))
+    if frac == 0.0:
+        case.note('ap_parent_indexed_before_any_read')
     E = [p for p in props if rng.random() < frac]
     for name in [E[i] for i in rng.permutation(len(E))]:
         ok, _ = read(case, A, name, 'parent_property_raised', {'cat': 'ApertureStats', 'prop': name, 'phase': 'pre'})
@@ -894,6 +1030,8 @@ def run_ap(case):
     compare_parent_after(case, A, B, props, mech0, rng)
     if rng.random() < 0.35:
         compare_tables(case, child, B, pos, mech0, columns=None)
+    if rng.random() < 0.05:
+        probe_empty_selection(case, A, n, ['ids', 'n_apertures', 'xcentroid', 'sum', 'bbox'], rng)
     case.nontrivial = ncached >= 1 and nfirst >= 1
     case.note('ap_children_scalar' if scalar else 'ap_children_nonscalar')
     case.note('properties_compared_cached', ncached)
